@@ -20,7 +20,9 @@ pub fn ns_secret(i: u8) -> NamespaceSecret {
     NamespaceSecret::from_bytes(&seed)
 }
 pub fn ns_id(i: u8) -> NamespaceId {
-    ns_secret(i).id()
+    // deriving the public key costs a curve multiplication: cache it
+    static IDS: std::sync::OnceLock<Vec<NamespaceId>> = std::sync::OnceLock::new();
+    IDS.get_or_init(|| (0..16u8).map(|i| ns_secret(i).id()).collect())[i as usize]
 }
 pub fn author(i: u8) -> Author {
     let mut seed = [0x22u8; 32];
@@ -28,7 +30,8 @@ pub fn author(i: u8) -> Author {
     Author::from_bytes(&seed)
 }
 pub fn author_id(i: u8) -> AuthorId {
-    author(i).id()
+    static IDS: std::sync::OnceLock<Vec<AuthorId>> = std::sync::OnceLock::new();
+    IDS.get_or_init(|| (0..16u8).map(|i| author(i).id()).collect())[i as usize]
 }
 
 /// Index of an author id among the first `n` universe authors.
